@@ -222,7 +222,67 @@ func Matrix(full bool) []*Schema {
 		{Num: 2, IsMsg: true, Msg: 1, Shape: Map, Key: Bool},
 		{Num: 1, Kind: Bytes, Shape: Singular},
 	}}
-	s.Msgs = []Msg{m0, m1, m2, m3, m4, m5, m6, m7, m8, m9, m10, m11, m12, m13, m14}
+	// M15: SEVERAL map fields of the same shape (same key kind, same value kind / type) in one message — code shared
+	// between "equal" fields must still write each field's own number — next to maps that differ in one component only
+	m15 := Msg{Name: "M15", Fields: []Field{
+		{Num: 2, Kind: String, Shape: Map, Key: String},
+		{Num: 3, Kind: String, Shape: Map, Key: String},
+		{Num: 4, Kind: Int64, Shape: Map, Key: String},
+		{Num: 5, Kind: Int64, Shape: Map, Key: String},
+		{Num: 16, IsMsg: true, Msg: 1, Shape: Map, Key: Int32},
+		{Num: 2047, IsMsg: true, Msg: 1, Shape: Map, Key: Int32},
+		{Num: 7, IsMsg: true, Msg: 12, Shape: Map, Key: Int32},
+		{Num: 8, Kind: Enum, Shape: Map, Key: Bool},
+		{Num: 9, Kind: Enum, Shape: Map, Key: Bool},
+		{Num: 10, Kind: Bytes, Shape: Repeated},
+		{Num: 11, Kind: Bytes, Shape: Repeated},
+		{Num: 1, Kind: String, Shape: Singular},
+	}}
+	// M16 / M17: numbering that is neither increasing nor decreasing in declaration order, with the LAST declared
+	// number equal to the number of fields while larger numbers exist (any "the fields are 1..n" shortcut taken from
+	// a count or from the last field is wrong here), scalars of every wire type plus a message
+	m16 := Msg{Name: "M16", Fields: []Field{
+		{Num: 1, Kind: Int32, Shape: Singular},
+		{Num: 4, Kind: String, Shape: Singular},
+		{Num: 3, Kind: Bool, Shape: Singular},
+	}}
+	m17 := Msg{Name: "M17", Fields: []Field{
+		{Num: 2, Kind: Fixed64, Shape: Singular},
+		{Num: 9, IsMsg: true, Msg: 16, Shape: Singular},
+		{Num: 1, Kind: Sfixed32, Shape: Repeated, Packed: true},
+		{Num: 17, Kind: Bytes, Shape: Singular},
+		{Num: 6, Kind: Sint64, Shape: Singular},
+		{Num: 5, Kind: String, Shape: Repeated},
+	}}
+	// M18: repeated message fields behind TWO-byte keys (17, 33, 130, 2047) next to length-delimited fields — oneof
+	// members, which are written after all regular fields, and a regular string — whose ONE-byte key is the first
+	// key byte's low bits (N mod 16 = 1, 2) : a decoder that recognises "the same key follows" by masking bytes
+	// confuses `0a 01` (field 1, length 1) with the key of field 17, `0a 02` with that of field 33, ...
+	m18 := Msg{Name: "M18", OneofNames: []string{"choice"}, Fields: []Field{
+		{Num: 17, IsMsg: true, Msg: 1, Shape: Repeated},
+		{Num: 33, IsMsg: true, Msg: 16, Shape: Repeated},
+		{Num: 130, IsMsg: true, Msg: 1, Shape: Repeated},
+		{Num: 2047, IsMsg: true, Msg: 16, Shape: Repeated},
+		{Num: 1, Kind: String, Shape: Oneof, Group: 0},
+		{Num: 2, Kind: Bytes, Shape: Oneof, Group: 0},
+		{Num: 15, IsMsg: true, Msg: 16, Shape: Oneof, Group: 0},
+	}}
+	// M19: oneofs whose members have EQUAL constant wire size (same width class, same tag length), and a third of
+	// another size: per-member code merged "because it is the same" must keep the per-member nil handling
+	m19 := Msg{Name: "M19", OneofNames: []string{"w4", "w8", "w1"}, Fields: []Field{
+		{Num: 1, Kind: String, Shape: Singular},
+		{Num: 2, Kind: Fixed32, Shape: Oneof, Group: 0},
+		{Num: 3, Kind: Float, Shape: Oneof, Group: 0},
+		{Num: 4, Kind: Sfixed32, Shape: Oneof, Group: 0},
+		{Num: 5, Kind: String, Shape: Oneof, Group: 0},
+		{Num: 6, Kind: Fixed64, Shape: Oneof, Group: 1},
+		{Num: 7, Kind: Double, Shape: Oneof, Group: 1},
+		{Num: 8, Kind: Sfixed64, Shape: Oneof, Group: 1},
+		{Num: 9, Kind: Bool, Shape: Oneof, Group: 2},
+		{Num: 10, Kind: Bool, Shape: Oneof, Group: 2},
+		{Num: 11, IsMsg: true, Msg: 16, Shape: Oneof, Group: 2},
+	}}
+	s.Msgs = []Msg{m0, m1, m2, m3, m4, m5, m6, m7, m8, m9, m10, m11, m12, m13, m14, m15, m16, m17, m18, m19}
 	out := []*Schema{s}
 	if full {
 		// every key kind x every value kind (+ message), 3 schemas to keep packages small
@@ -558,8 +618,24 @@ func Nested() *descriptorpb.FileDescriptorProto {
 			{Name: proto.String("Namespace"), NestedType: []*descriptorpb.DescriptorProto{
 				reservedMsg("Decl"),
 				{Name: proto.String("Sub"), NestedType: []*descriptorpb.DescriptorProto{reservedMsg("Deep")}}}}},
-		EnumType: []*descriptorpb.EnumDescriptorProto{enum("Top", "TOP_ZERO", "TOP_ONE")},
+		EnumType: []*descriptorpb.EnumDescriptorProto{enum("Top", "TOP_ZERO", "TOP_ONE"),
+			// allow_alias enums: the alias declared far from (after) its canonical value in a run of more than 12 values
+			// (an unstable sort by number may put it first), aliases right after their value, a hole in the range
+			aliasEnum("Status", [][2]interface{}{{"STATUS_UNSPECIFIED", 0}, {"STATUS_QUEUED", 1}, {"STATUS_STARTING", 2}, {"STATUS_RUNNING", 3}, {"STATUS_PAUSED", 4},
+				{"STATUS_STOPPING", 5}, {"STATUS_STOPPED", 6}, {"STATUS_FAILED", 7}, {"STATUS_RETRY", 8}, {"STATUS_LOST", 9}, {"STATUS_DONE", 10},
+				{"STATUS_ARCHIVED", 11}, {"STATUS_PURGED", 12}, {"STATUS_ACTIVE", 3}}),
+			aliasEnum("Phase", [][2]interface{}{{"PHASE_A", 0}, {"PHASE_B", 1}, {"PHASE_C", 2}, {"PHASE_D", 3}, {"PHASE_E", 4}, {"PHASE_F", 5}, {"PHASE_G", 6}, {"PHASE_H", 7},
+				{"PHASE_I", 8}, {"PHASE_J", 9}, {"PHASE_K", 10}, {"PHASE_L", 11}, {"PHASE_M", 12}, {"PHASE_N", 13}, {"PHASE_O", 14}, {"PHASE_OLD_B", 1}, {"PHASE_OLD_F", 5}, {"PHASE_OLD_A", 0}}),
+			aliasEnum("Level", [][2]interface{}{{"LEVEL_LOW", 0}, {"LEVEL_MID", 1}, {"LEVEL_NORMAL", 1}, {"LEVEL_TOP", 3}})},
 	}
+}
+
+func aliasEnum(name string, vals [][2]interface{}) *descriptorpb.EnumDescriptorProto {
+	e := &descriptorpb.EnumDescriptorProto{Name: proto.String(name), Options: &descriptorpb.EnumOptions{AllowAlias: proto.Bool(true)}}
+	for _, v := range vals {
+		e.Value = append(e.Value, &descriptorpb.EnumValueDescriptorProto{Name: proto.String(v[0].(string)), Number: proto.Int32(int32(v[1].(int)))})
+	}
+	return e
 }
 
 // Dup: two files in different Go packages declaring messages with the SAME Go names at different
